@@ -6,7 +6,7 @@ use crate::engine::{no_panic, prop_sub, Obs, Property, Violation};
 use crate::gen::graphs::{build_case, GraphCfg};
 use crate::model::graph::{GraphCase, RefRun, RefTrace, RefVerdict};
 use crate::model::ops::MOp::*;
-use crate::real::{make_vm, to_real_ops, to_real_solutions, vm_state, ExecCase};
+use crate::real::{to_real_ops, to_real_solutions, vm_state, ExecCase};
 use crate::{ensure, viol};
 use essential_vm::{Access, GasLimit};
 use proptest::prelude::*;
